@@ -40,6 +40,11 @@ func driveSyncSet(plan []M, out *Out, _ []string) {
 		st := &sync2.Set[int]{}
 		keys := ints(p, "keys")
 		return &world{
+			snap: func(s *Sched, e M) M {
+				sn := sync2.VerifSnapshot(sync2.VerifSetMap(st), keys, func(struct{}) int { return 1 })
+				e["r"], e["d"], e["am"], e["dn"], e["ms"] = nz(sn.R), nz(sn.D), sn.Amended, sn.DirtyNil, sn.Misses
+				return e
+			},
 			calls: func(v any) []Call {
 				a, _ := v.([]any)
 				out := []Call{}
